@@ -51,7 +51,7 @@ func init() {
 			{{K: "arr", Addr: 2, TI: 1}, {K: "arr", Addr: 0, TI: 1}},
 		},
 		MaxBulk: 60, Keys: []int{12, 64},
-		ValW:    valNoComposite, MaxDepth: 2, MaxElems: 4, AcqW: [3]int{8, 1, 1}, NondetPct: 50,
+		ValW: valNoComposite, MaxDepth: 2, MaxElems: 4, AcqW: [3]int{8, 1, 1}, NondetPct: 50,
 	})
 	register(&PropDef{
 		ID:  "C14",
